@@ -78,6 +78,8 @@ class C01(Prop):
                      'nextra': rng.choice([0, 0, 3, 20]), 'chunkext': rng.random() < 0.3, 'trailers': rng.random() < 0.2,
                      'cc': rng.choice(['', 'max-age=100', 'no-store', 'private']), 'origin10': rng.random() < 0.1,
                      'owin': rng.choice([4096, 65536, 65536, 1 << 20])}
+                if c.get('readpace'):   # a slow reader must still finish well inside the client's own patience (its expect timeout)
+                    t['size'] = min(t['size'], int(c['readpace'][0] * 1e6 / c['readpace'][1] * 60))
                 hc.bound_transfer(t, plan['knobs'])
                 # some transactions go to a two-address host whose first contacted address answers a complete 502/504 (squid then re-forwards to the other)
                 if rng.random() < 0.2 and t['method'] == 'GET':
